@@ -89,9 +89,60 @@ func runC08(c *eng.Ctx) {
 				okKey = isConv && key(eng.Strip(cv.X))
 			}
 			c.Check(okKey, "latest offset looked up by the message's key", p.Pos(fn.Pos()), "keyOffsets.Load(string(key))", "the latest offset is not looked up with the key of the message being examined")
+			// ... and read from the table entry exactly when the key was found
+			found := eng.BoolEdges(fn, eng.Call(1, "sync.Map.Load"), true)
+			okGet := len(found) > 0
+			gets := eng.CallsIn(fn, cl+"keyOffset.get")
+			for _, g := range gets {
+				if gd, _ := eng.GuardedBy(fn, g.(ssa.Instruction), found); !gd {
+					okGet = false
+				}
+			}
+			c.Check(okGet && len(gets) == 1, "latest offset read when the key is in the table", p.Pos(fn.Pos()), "latest.(*keyOffset).get() on the ok edge of Load", "the table entry is read on the edge where the key was NOT found (and 0 is used where it was): every keyed message below the watermark except offset 0 is dropped")
 		}
+		// the outcome: an empty rewrite removes both files, any other rewrite replaces the old segment
+		empty := eng.BoolEdges(fn, eng.Call(-1, cl+"segment.IsEmpty"), true)
+		nonEmpty := eng.BoolEdges(fn, eng.Call(-1, cl+"segment.IsEmpty"), false)
+		okOut := len(empty) > 0 && len(nonEmpty) > 0
+		nOut := 0
+		for _, ce := range eng.CallsIn(fn, cl+"cleanupEmptySegment") {
+			nOut++
+			if g, _ := eng.GuardedBy(fn, ce.(ssa.Instruction), empty); !g {
+				okOut = false
+			}
+		}
+		for _, rp := range eng.CallsIn(fn, cl+"segment.Replace") {
+			nOut++
+			if g, _ := eng.GuardedBy(fn, rp.(ssa.Instruction), nonEmpty); !g {
+				okOut = false
+			}
+		}
+		c.Check(okOut && nOut == 2, "an empty rewrite is removed, any other replaces the old segment", p.Pos(fn.Pos()), "cleanupEmptySegment on IsEmpty(), Replace otherwise", "cleanSegment deletes a rewritten segment that still holds messages together with the old one (or installs an empty one): every retained message of that segment is lost")
 	}
-	c.Floor(5)
+	if fn := c.Fn(cl + "(*compactCleaner).compact"); fn != nil {
+		// every rewritten segment that exists is part of the result, nil (dropped) ones are not
+		okApp := false
+		cleaned := eng.Call(0, cl+"compactCleaner.cleanSegment")
+		exists := eng.CmpEdges(fn, cleaned, eng.NilConst, eng.NE)
+		eng.Instrs(fn, func(in ssa.Instruction) {
+			call, isCall := in.(*ssa.Call)
+			if !isCall {
+				return
+			}
+			if b, isB := call.Call.Value.(*ssa.Builtin); !isB || b.Name() != "append" {
+				return
+			}
+			for _, e := range variadicElems(call.Call.Args[1]) {
+				if cleaned(e) {
+					if g, _ := eng.GuardedBy(fn, in, exists); g && len(exists) > 0 {
+						okApp = true
+					}
+				}
+			}
+		})
+		c.Check(okApp, "rewritten segments join the result when they exist", p.Pos(fn.Pos()), "append(compacted, cleaned) on cleaned != nil", "compact() does not add the rewritten segment to its result exactly when there is one: retained messages vanish from the segment list (or a nil segment enters it)")
+	}
+	c.Floor(8)
 
 	// ---- R08.2 newest segment untouched
 	c.Rule("R08.2", "K5")
